@@ -17,43 +17,17 @@ Tie, per explored expression list es (recipes evaluated on the library):
   * the driver evaluates the property oracle directly on the library's outputs (eq both ways, symbol sets by its own
     get_args walk), independent of the model.
 """
-import os
 import vlib
 
-OWN_FILES = ["C37/CseModel.v", "C37/CseLib.v", "C37/CseCheck.v", "C37/CseOpt.v", "C37/CseOptLib.v", "C37/CseSpec.v", "C37/CseCheckProofs.v",
-             "C37/CseNames.v", "C37/CseProofs.v", "C37/CseFlow.v", "C37/CseSem.v", "C37/CseLibProofs.v",
-             "C37/CseExcl.v", "C37/CseOptProofs.v", "C37/CseRefuted.v"]
-SHARED_DEPS = ["Expr/IO.vo", "Expr/Arith.vo", "Expr/CmpProofs.vo", "Expr/HashProofs.vo", "C39/QueryModel.vo", "C39/ArgsDown.vo", "C39/OccProofs.vo"]
-PROOF_MODULES = []   # C37 files are not in coq/_CoqProject yet: compiled directly by build_own (see the report)
-OBLIGATIONS = []     # filled below from the P_*.v files that exist
-
-
-def obligations():
-    d = os.path.join(vlib.COQ, "C37")
-    return sorted("C37/" + f for f in os.listdir(d) if f.startswith("P_") and f.endswith(".v"))
-
-
-def build_own(ctx):
-    """compile coq/C37/*.v (model, spec, proofs) when stale; a file that no longer compiles is broken"""
-    coq = vlib.COQ
-    with vlib.Lock(os.path.join(vlib.WORK, "c37-coq.lock")):
-        newest = max((os.path.getmtime(os.path.join(coq, d)) for d in SHARED_DEPS if os.path.exists(os.path.join(coq, d))), default=0)
-        for f in OWN_FILES:
-            src = os.path.join(coq, f)
-            if not os.path.exists(src):
-                continue
-            vo = src + "o"
-            newest = max(newest, os.path.getmtime(src))
-            if os.path.exists(vo) and os.path.getmtime(vo) >= newest:
-                newest = max(newest, os.path.getmtime(vo))
-                continue
-            rc, out = vlib.sh(["timeout", "1800", "coqc", "-Q", ".", "SE", "-w", "-notation-overridden", f], cwd=coq, timeout=1830)
-            if rc != 0:
-                kind = "correspondence" if f in OWN_FILES[:5] else "proof"
-                ctx.broken.append({"kind": kind, "name": f, "detail": out[-2500:]})
-                return False
-            newest = max(newest, os.path.getmtime(vo))
-    return True
+# proof modules built by `make` (coq/_CoqProject lists every C37 file); the P_*.v obligations need exactly these
+PROOF_MODULES = ["C37/CseCheckProofs.vo", "C37/CseNames.vo", "C37/CseProofs.vo", "C37/CseFlow.vo", "C37/CseSem.vo",
+                 "C37/CseLibProofs.vo", "C37/CseExcl.vo", "C37/CseOptProofs.vo", "C37/CseOptLib.vo", "C37/CseRefuted.vo"]
+OBLIGATIONS = [
+    "C37/P_check_cse_sound.v", "C37/P_sym_name_injective.v", "C37/P_tree_cse_fresh_names.v", "C37/P_cse_fresh_names.v",
+    "C37/P_excluded_complete.v", "C37/P_tree_cse_fresh.v", "C37/P_tree_cse_acyclic.v", "C37/P_tree_cse_acyclic_wf.v",
+    "C37/P_tree_cse_faithful_guarded.v", "C37/P_tree_cse_faithful_wf.v", "C37/P_funsym_name_clash_refuted.v",
+    "C37/P_funsym_pow_arity_crash.v", "C37/P_piecewise_condition_fixed.v", "C37/P_nonvacuous.v",
+]
 
 
 # ---------------------------------------------------------------- generators
@@ -322,37 +296,13 @@ def explore(ctx, drv, model, cases, stats, search=False):
             ctx.cov["samples"].append({"case": cases[i], "cse": csec[:300], "model": m[:200]})
 
 
-def dev_mode(ctx):
-    """C37_DEV=1 (development on a machine where other builders hold .work/coq.lock for long makes): do not call
-    `make` on the shared Coq tree and do not wait for the shared lock.  Never set in a real run."""
-    if os.environ.get("C37_DEV") != "1":
-        return
-    ctx.coq_make = lambda targets, timeout=2400: (True, "")
-
-    class NoLock:
-        def __init__(self, path):
-            pass
-
-        def __enter__(self):
-            return self
-
-        def __exit__(self, *a):
-            pass
-    real = vlib.Lock
-    vlib.Lock = lambda path: NoLock(path) if path.endswith("coq.lock") else real(path)
-
-
 def run(ctx):
-    global OBLIGATIONS
-    dev_mode(ctx)
-    OBLIGATIONS = obligations()
     ctx.gate(["C37"])
-    build_own(ctx)
     ctx.prove(PROOF_MODULES, OBLIGATIONS)
     drv = ctx.build_driver("c37_driver")
     model = ctx.build_model("C37", "C37/Extract.v", "c37_main.ml", "semodel", extra_ml=["expr_io.ml"])
     q = ctx.tier == "quick"
-    ncases = int(os.environ.get("C37_NCASES", 1000 if q else 30000))
+    ncases = 1000 if q else 30000
     cases = list(CORPUS) + [gen_case(ctx.rng) for _ in range(ncases)]
     stats = {}
     explore(ctx, drv, model, cases, stats)
@@ -390,8 +340,6 @@ def run(ctx):
 
 
 def replay(ctx, rep):
-    dev_mode(ctx)
-    build_own(ctx)
     drv = ctx.build_driver("c37_driver")
     model = ctx.build_model("C37", "C37/Extract.v", "c37_main.ml", "semodel", extra_ml=["expr_io.ml"])
     c = rep["replay"]["case"]
